@@ -42,6 +42,37 @@ class SimHooks(Hooks):
                 q.events.append(('get', lv[1]))
                 out.append((q, var('GETC%d' % q.nin, 32)))
             return out
+        # get() on a stream object handed out by a member function (`inputStream(n).get()`): decided per returned object
+        if name in ('get', 'put') and 'stream' in t and o['kind'] == 'CXXMemberCallExpr':
+            out = []
+            for q, lv in I.lval(o, p):
+                for q3, vals in I.eval_args([a for a in args if name == 'put'], q):
+                    if name == 'get':
+                        q3.nin += 1
+                        g = var('GETC%d' % q3.nin, 32)
+                        if lv[0] == 'field':
+                            q3.events.append(('get', lv[1]))
+                        elif lv[0] == 'mem' and str(lv[1]).startswith('ARRAY:'):
+                            q3.events.append(('fget', lv[1][len('ARRAY:'):], lv[2]))
+                        else:
+                            raise AnalysisBroken('get() on an unmodelled stream object %r at %s' % (lv[:2], pos(node)))
+                        if args:
+                            # get(char &c): c is assigned the character, and left unchanged at end of input (the int form returns EOF)
+                            for q4, clv in I.lval(args[0], q3):
+                                old = I.load(q4, clv)
+                                I.store(q4, clv, ite(p_eq(g, const(32, 0xFFFFFFFF)), old, I.conv(trunc(g, 8), old.w if isinstance(old, V) else 8, False) if False else trunc(g, 8)))
+                                out.append((q4, Ref('stream', lv[1])))
+                        else:
+                            out.append((q3, g))
+                    else:
+                        if lv[0] == 'field':
+                            q3.events.append(('print', 'field:' + lv[1], vals[0]))
+                        elif lv[0] == 'mem' and str(lv[1]).startswith('ARRAY:'):
+                            q3.events.append(('fput', lv[1][len('ARRAY:'):], lv[2], vals[0]))
+                        else:
+                            raise AnalysisBroken('put() on an unmodelled stream object %r at %s' % (lv[:2], pos(node)))
+                        out.append((q3, const(1, 0)))
+            return out
         # std::cin.get() etc.: a read from a namespace-scope stream object (not through the routing object)
         if name in ('get', 'peek') and 'istream' in t and o['kind'] == 'DeclRefExpr' and (o.get('referencedDecl') or {}).get('kind') == 'VarDecl':
             p.nin += 1 if name == 'get' else 0
